@@ -1,6 +1,7 @@
 package props
 
 import (
+	"strconv"
 	"strings"
 
 	"pgregory.net/rapid"
@@ -146,9 +147,20 @@ func genPipeline(rt *rapid.T, avoid func(string) bool, maxReqs int, plain bool) 
 		}
 		switch rapid.IntRange(0, 10).Draw(rt, "reqkind") {
 		case 10:
-			if rapid.IntRange(0, 15).Draw(rt, "bigarg") != 0 {
+			switch rapid.IntRange(0, 15).Draw(rt, "bigarg") {
+			case 0:
+			case 1:
+				// a request of more elements than the parser's initial element buffer, with requests pipelined behind it
+				wide := [][]byte{[]byte(g.Casing(rapid.SampledFrom([]string{"DEL", "EXISTS", "MGET"}).Draw(rt, "widecmd")))}
+				for j, k := 0, rapid.SampledFrom([]int{1022, 1023, 1024, 1025, 1100, 2049}).Draw(rt, "width"); j < k; j++ {
+					wide = append(wide, []byte("k"+strconv.Itoa(j)))
+				}
+				c.Reqs = append(c.Reqs, binPtrs(wide))
+				labels["wide-request"] = true
+				continue
+			default:
 				c.Reqs = append(c.Reqs, binPtrs([][]byte{[]byte("ECHO"), []byte("small")}))
-				break
+				continue
 			}
 			// an argument larger than the parser's initial buffers, with requests pipelined behind it
 			n := rapid.SampledFrom([]int{4096, 65534, 65535, 65536, 70000, 131073}).Draw(rt, "biglen")
